@@ -35,8 +35,8 @@ def run_case(case):
                 ok = r.returncode == 1 and viol
                 meta_p = os.path.join(os.path.dirname(patch), "meta.json")
                 want = json.load(open(meta_p)).get("expected_exit", 1) if os.path.exists(meta_p) else 1
-                if want == 2:       # kept although not caught: the recorded, explained outcome is "undecided"
-                    ok = r.returncode == 2 and not viol
+                if want in (0, 2):  # kept although not caught: the recorded, explained outcome is "undecided" / "known finding"
+                    ok = r.returncode == want and not viol
             else:
                 ok = r.returncode in (0, 2) and not viol
             res.append((kind, cid, prop, "exit=%d%s" % (r.returncode, " VIOLATION" if viol else ""), ok))
